@@ -6,6 +6,10 @@
    line.  Atoms are hexadecimal integers with an optional leading '-'. *)
 open Model
 
+(* a larger minor heap: the extracted models allocate long lists of small blocks; this only
+   changes speed (3-4x on megabyte-sized cases), not results *)
+let () = Gc.set { (Gc.get ()) with Gc.minor_heap_size = 8 * 1024 * 1024 }
+
 let rec pos_of_bits = function        (* msb first, first bit is 1 *)
   | [] -> failwith "pos_of_bits"
   | _ :: rest -> List.fold_left (fun p b -> if b then XI p else XO p) XH rest
